@@ -38,6 +38,7 @@ import (
 	"sort"
 	"strconv"
 	"strings"
+	"time"
 
 	"com.tuntun.rangers/node/src/common"
 	"com.tuntun.rangers/node/src/eth_tx"
@@ -989,6 +990,16 @@ func leadNotes() []string {
 	for _, s := range []string{"Inf", "-inf", "1e30", "1p3", "0x10", "1e-30", "1e1000000000"} {
 		v, err := utility.StrToBigInt(s)
 		out = append(out, strconv.Quote(s)+" -> "+showInt(v, err))
+	}
+	// resource observation (outside C18): result size is driven by the exponent, not the length.
+	// Replayed with exponents that stay cheap; "9e272681876" (11 chars) would need ~10^9 bits.
+	for _, s := range []string{"1e20000", "9e272681", "9e2726818"} {
+		t0 := time.Now()
+		v, err := utility.StrToBigInt(s)
+		el := time.Since(t0)
+		if err == nil && v != nil {
+			out = append(out, fmt.Sprintf("size: %q (%d chars) -> %d bits, StrToBigInt took %dms", s, len(s), v.BitLen(), el.Milliseconds()))
+		}
 	}
 	return out
 }
